@@ -149,7 +149,13 @@ def cut_at_completion(tokens, victim, tls13):
     return tokens
 
 
-def deviations(honest, tls13_server_queue=False):
+# first bytes of a KeyUpdate / of a NewSessionTicket: a handshake message
+# begun in the record that ends an epoch (RFC 8446 5.1: handshake messages
+# MUST NOT span key changes)
+FRAGMENTS = [b"\x18", b"\x18\x00\x00", b"\x04\x00\x00\x30\x00"]
+
+
+def deviations(honest, tls13=False):
     """All single deviations for an honest (index, token) list."""
     out = []
     idxs = [i for i, t in honest if t not in ("ALERT",)]
@@ -159,6 +165,9 @@ def deviations(honest, tls13_server_queue=False):
         out.append({i: ("swap",)})
         for w in INSERTS:
             out.append({i: ("insert", w)})
+        if tls13 and dict(honest)[i] in ("CH", "SH", "FIN", "HRR"):
+            for frag in FRAGMENTS:
+                out.append({i: ("straddle", frag)})
     return out
 
 
@@ -191,7 +200,7 @@ def case(item):
     hs_honest = honest[:len(H)]
     rec["H"] = H
     cert_auth = sc.flavour == "cert"
-    devs = deviations(hs_honest)
+    devs = deviations(hs_honest, tls13)
     if tier == "thorough":
         singles = list(devs)
     for script in devs:
@@ -266,7 +275,7 @@ def case2(item):
     tls13 = sc.version >= (3, 4)
     honest = list(pup.honest)
     H = cut_at_completion([t for _, t in honest], victim, tls13)
-    devs = deviations(honest[:len(H)])
+    devs = deviations(honest[:len(H)], tls13)
     for a in range(len(devs)):
         for b in range(a + 1, len(devs)):
             (ia, acta), = devs[a].items()
